@@ -414,3 +414,13 @@ def skipped_iteration(body, nx, site_blocks, allowed_edges=()):
     if nx.bb in seen:
         return witness_path(body, seen, nx.bb)
     return None
+
+
+def early_exit(body, nx):
+    """K9: a path from the Some edge of loop header `nx` to a function return that does not pass the header again (break / return inside the loop)."""
+    some = variant_edge(body, nx, "Some")
+    seen = body.reach(0, src_edges=some, cut_blocks=[nx.bb])
+    for x in body.exits():
+        if x in seen:
+            return witness_path(body, seen, x)
+    return None
